@@ -95,10 +95,12 @@ impl Cfg {
     }
 
     pub fn build_uncached(&self) -> Result<Scanner, String> {
+        trace_unit(|| self.to_json().to_string());
         ScannerBuilder::new().add_scanner_modes(&self.to_scnr()).build_uncached().map_err(|e| e.to_string())
     }
 
     pub fn build_cached(&self) -> Result<Scanner, String> {
+        trace_unit(|| self.to_json().to_string());
         ScannerBuilder::new().add_scanner_modes(&self.to_scnr()).build().map_err(|e| e.to_string())
     }
 
@@ -155,6 +157,30 @@ pub fn quiet_panics() {
     std::panic::set_hook(Box::new(|_| {}));
 }
 
+/// Crash location. A process killed by a signal (abort of a non-unwinding panic, memory fault,
+/// stack overflow inside the code under test) cannot report what it was doing. `./check` then runs
+/// the binary a second time with VERIF_CRASH_TRACE=<dir>; in that run every thread records the
+/// configuration it builds next in `<dir>/<thread id>` (one small file per thread, rewritten in
+/// place), so that the configurations in flight at the moment of the crash are known.
+pub fn trace_unit(desc: impl FnOnce() -> String) {
+    use std::io::{Seek, Write};
+    static DIR: OnceLock<Option<std::path::PathBuf>> = OnceLock::new();
+    thread_local! { static FILE: std::cell::RefCell<Option<std::fs::File>> = const { std::cell::RefCell::new(None) }; }
+    let Some(dir) = DIR.get_or_init(|| std::env::var_os("VERIF_CRASH_TRACE").map(std::path::PathBuf::from)) else { return };
+    FILE.with(|f| {
+        let mut f = f.borrow_mut();
+        if f.is_none() {
+            *f = std::fs::File::create(dir.join(format!("{:?}", std::thread::current().id()).replace(['(', ')'], "_"))).ok();
+        }
+        if let Some(file) = f.as_mut() {
+            let d = desc();
+            let _ = file.seek(std::io::SeekFrom::Start(0));
+            let _ = file.write_all(d.as_bytes());
+            let _ = file.set_len(d.len() as u64);
+        }
+    });
+}
+
 pub fn catch<T>(f: impl FnOnce() -> T) -> Result<T, String> {
     catch_unwind(AssertUnwindSafe(f)).map_err(|e| {
         if let Some(s) = e.downcast_ref::<&str>() {
@@ -176,6 +202,7 @@ pub fn all_scalars_string() -> &'static str {
 /// Membership table of a one-character pattern, obtained through the public API: the pattern is
 /// compiled alone and run over the string of all scalars; the one-character tokens are its members.
 pub fn tabulate_pattern(pattern: &str) -> Result<CharSet, String> {
+    trace_unit(|| json!({"pattern tabulated over all scalar values": pattern}).to_string());
     let sc = ScannerBuilder::new()
         .add_scanner_mode(ScannerMode::new("T", vec![Pattern::new(pattern.to_string(), 0)], vec![]))
         .build_uncached()
